@@ -230,6 +230,7 @@ class Threadless(ABC, Generic[T]):
     async def _update_selector(self) -> None:
         assert self.selector is not None
         unfinished_work_ids = set()
+        broken_work_ids: List[int] = []
         for task in self.unfinished:
             unfinished_work_ids.add(task._work_id)   # type: ignore
         for work_id in self.works:
@@ -237,7 +238,18 @@ class Threadless(ABC, Generic[T]):
             # yet finished their previous task
             if work_id in unfinished_work_ids:
                 continue
-            await self._update_work_events(work_id)
+            try:
+                await self._update_work_events(work_id)
+            except Exception as exc:
+                # A work whose descriptors cannot be (re)registered is
+                # torn down, it must not take the shared loop with it.
+                logger.exception(
+                    'Exception occurred while updating events for work#{0}'.format(work_id),
+                    exc_info=exc,
+                )
+                broken_work_ids.append(work_id)
+        for work_id in broken_work_ids:
+            self._cleanup(work_id)
         await self._update_conn_pool_events()
 
     async def _selected_events(self) -> Tuple[
